@@ -200,6 +200,11 @@ impl RewardMonitor {
             if let (Did::Rejected(1), Op::CollectReward { .. }) = (&r.did, op) {
                 return Err("collect_reward failed for lack of vault funds instead of paying min(owed, vault)".into());
             }
+            // collecting an initialized reward of an open position by its owner into an account of the reward's mint pays
+            // min(owed, vault): it has no reason to be refused
+            if let (Did::Rejected(code), Op::CollectReward { .. }) = (&r.did, op) {
+                return Err(format!("collect_reward on an initialized reward was refused with {code}"));
+            }
             return Ok(());
         }
         if matches!(op, Op::AdvanceClock(_) | Op::FundRewardVault { .. } | Op::AdvanceEpoch(_) | Op::SetTransferFee { .. }) {
